@@ -56,6 +56,12 @@ def main():
     def tf0(ex):
         return sample[harness.choose_index(ex, "shape", len(sample))]
     chk.run("shapes k=0", harness.A_harness(tf0, path_oracles=o), f"{len(sample)} f-string shapes", wall=120 if chk.quick else 1200, vacuity=("ok",))
+    cp = [t for t in seeds.concat_product(True, 100 if chk.quick else 2000, chk.rng) if any(m in t.lower() for m in ("f'", 'f"'))]
+
+    def tfc(ex):
+        return cp[harness.choose_index(ex, "cp", len(cp))]
+    chk.run("implicit concatenations with f-strings k=0", harness.A_harness(tfc, path_oracles=o), f"{len(cp)} concatenations of string-like atoms (all prefix cases, multi-line atoms) that involve an f-string",
+            wall=120 if chk.quick else 900, vacuity=("ok",))
     hs = NESTED + (sh[:120] if chk.quick else sh[:1500])
     pairs = hole_pairs(chk, hs, 3 if chk.quick else 0, 80)
     chk.extra["hole_positions"] = len(pairs)
